@@ -50,13 +50,13 @@ package standard
 //@ hint-after RunRules@1 [e3] nameMatch(path, walletAccount)
 //@ hint-after RunRules@1 [e4] implements(walletAccount, "e2wtypes.AccountPublicKeyProvider")
 //@ hint-after RunRules@1 [elig] eligible(s.fetcher, path, walletAccount) && akey(credentials.Client, s.fetcher, path, walletAccount) in checkedset
-//@ loop #1
+//@ loop #1 over range paths
 //@ invariant [range] 0 <= _n && _n <= len(paths) && accounts != nil && fresh(accounts)
 //@ invariant [nonnil] forall k int :: 0 <= k && k < len(accounts) ==> accounts[k] != nil
 //@ invariant [locks] !prelocked && (forall k [48]byte :: !held[k])
 //@ invariant [sound] forall k int :: 0 <= k && k < len(accounts) ==> (exists i int :: 0 <= i && i < _n && eligible(s.fetcher, paths[i], accounts[k]) && akey(credentials.Client, s.fetcher, paths[i], accounts[k]) in checkedset)
 //@ invariant [complete] credentials.Client != "" ==> (forall i int, n string :: 0 <= i && i < _n && pathOK(s.fetcher, paths[i]) && hasAcc(s.fetcher, wn(s.fetcher, paths[i]), n) && nameMatch(paths[i], accNamed(s.fetcher, wn(s.fetcher, paths[i]), n)) && implements(accNamed(s.fetcher, wn(s.fetcher, paths[i]), n), "e2wtypes.AccountPublicKeyProvider") ==> (exists k int :: 0 <= k && k < len(accounts) && accounts[k] == accNamed(s.fetcher, wn(s.fetcher, paths[i]), n)) || akey(credentials.Client, s.fetcher, paths[i], accNamed(s.fetcher, wn(s.fetcher, paths[i]), n)) in deniedset)
-//@ loop #2
+//@ loop #2 over range walletAccounts
 //@ invariant [outer] 0 <= _n1 && _n1 < len(paths) && accounts != nil && fresh(accounts)
 //@ invariant [nonnil] forall k int :: 0 <= k && k < len(accounts) ==> accounts[k] != nil
 //@ invariant [outer-path] path == paths[_n1]
@@ -77,7 +77,7 @@ package standard
 //@ requires [options] forall i int :: 0 <= i && i < len(params) ==> params[i] != nil
 //@ ensures [err] result1 != nil ==> result0 == nil
 //@ ensures [ok] result1 == nil ==> result0 != nil && result0.monitor != nil && result0.checker != nil && result0.fetcher != nil && result0.ruler != nil
-//@ loop #1
+//@ loop #1 over range params
 //@ invariant [range] 0 <= _n && _n <= len(params)
 
 //@ func New
